@@ -549,20 +549,20 @@ abbrev MetaReply := Dict Str (Int × List Int)
 /-- `sorted` on partition ids -/
 def intLe (a b : Int) : Bool := decide (a ≤ b)
 
-/-- The `for topic in topics` loop after one reply: `none` when `missing` is non-empty (a requested
-    topic is not in the response, has an error code, or has no partitions). -/
-def snapshotOf (r : MetaReply) : List Str → Option (Dict Str (List Int))
-  | [] => some []
-  | t :: ts =>
+/-- The `for topic in topics` loop after one reply (`acc` is `snapshot` so far): `none` when
+    `missing` is non-empty (a requested topic is not in the response, has an error code, or has no
+    partitions). -/
+def snapshotLoop (r : MetaReply) : List Str → Dict Str (List Int) → Option (Dict Str (List Int))
+  | [], acc => some acc
+  | t :: ts, acc =>
     match dget t r with
     | none => none                                   -- "not in response" (repo commit 9b87dea)
     | some (err, ps) =>
       if err ≠ 0 then none
       else if ps = [] then none
-      else
-        match snapshotOf r ts with
-        | none => none
-        | some rest => some (dset t (sortBy intLe (dedup ps)) rest)
+      else snapshotLoop r ts (dset t (sortBy intLe (dedup ps)) acc)
+
+def snapshotOf (r : MetaReply) (asked : List Str) : Option (Dict Str (List Int)) := snapshotLoop r asked []
 
 /-- The `while True` loop over the successive replies; `none`: still retrying when they run out.
     Also returns how many requests were sent. -/
